@@ -63,6 +63,10 @@ pub enum Op {
     IterStep(usize),
     /// put_from_iter fed by an iterator over the same map (values reversed in place)
     PutIterSelf,
+    /// NOT a call of the crate: every handle is dropped, the key / value file is extended by a hole up to the given
+    /// length (0 = left alone), the map is reopened. Stands in for a history long enough to grow the files that far
+    /// (only used by histories whose monitors never walk the slots of a file).
+    Hole(Cfg, u64, u64),
 }
 
 impl Op {
@@ -104,6 +108,7 @@ impl Op {
             Op::Stats => "stats",
             Op::IterStep(..) => "iterator_step",
             Op::PutIterSelf => "put_from_iter_self",
+            Op::Hole(..) => "hole",
         }
     }
     pub fn text(&self) -> String {
@@ -141,6 +146,7 @@ impl Op {
             Op::Stats => "stats".into(),
             Op::IterStep(n) => format!("iter_step {n}"),
             Op::PutIterSelf => "put_iter_self".into(),
+            Op::Hole(c, k, v) => format!("hole {} {k} {v}", c.text()),
         }
     }
     pub fn parse(s: &str) -> Option<Op> {
@@ -193,6 +199,7 @@ impl Op {
             "stats" => Op::Stats,
             "iter_step" => Op::IterStep(it.next()?.parse().ok()?),
             "put_iter_self" => Op::PutIterSelf,
+            "hole" => Op::Hole(Cfg::parse(it.next()?)?, it.next()?.parse().ok()?, it.next()?.parse().ok()?),
             _ => return None,
         })
     }
